@@ -101,6 +101,13 @@ pub trait Monitor: Sync {
     fn extra_coverage(&self, _tier: Tier, _buckets: &BTreeMap<String, u64>) -> Vec<(String, Json)> {
         vec![]
     }
+    /// executed once after all cases (e.g. an offline checker over a recorded event log).
+    /// Returns (violations, extra coverage keys, inconclusive reason)
+    fn post_run(&self, _tier: Tier, _seed: u64, _verif_root: &str) -> (Vec<Violation>, Vec<(String, Json)>, Option<String>) {
+        (vec![], vec![], None)
+    }
+    /// executed once before any case
+    fn pre_run(&self, _tier: Tier, _seed: u64, _verif_root: &str) {}
     /// soft wall-clock budget in seconds after which no further *random* case is started
     fn budget_s(&self, tier: Tier) -> u64 {
         tier.pick(40, 480)
@@ -184,6 +191,9 @@ pub fn run(mon: &dyn Monitor, cfg: &RunCfg) -> i32 {
     });
     let budget_cut = AtomicBool::new(false);
     let skipped = AtomicUsize::new(0);
+    if cfg.only_label.is_none() {
+        mon.pre_run(cfg.tier, cfg.seed, &cfg.verif_root);
+    }
 
     std::thread::scope(|s| {
         for _ in 0..cfg.jobs.max(1) {
@@ -274,6 +284,19 @@ pub fn run(mon: &dyn Monitor, cfg: &RunCfg) -> i32 {
             .entry(v.signature.clone())
             .or_insert((v.detail.clone(), "run-level".to_string(), Json::Null, 1));
     }
+    let mut post_cov: Vec<(String, Json)> = Vec::new();
+    if cfg.only_label.is_none() {
+        let (pv, pc, inc) = mon.post_run(cfg.tier, cfg.seed, &cfg.verif_root);
+        for v in pv {
+            a.violations
+                .entry(v.signature.clone())
+                .or_insert((v.detail.clone(), "post-run".to_string(), Json::Null, 1));
+        }
+        post_cov = pc;
+        if let Some(r) = inc {
+            a.inconclusive.push(r);
+        }
+    }
     // mandatory buckets
     if cfg.only_label.is_none() {
         for b in mon.mandatory_buckets(cfg.tier) {
@@ -352,6 +375,9 @@ pub fn run(mon: &dyn Monitor, cfg: &RunCfg) -> i32 {
             .set("violation_list", Json::Arr(viol_json))
             .set("inconclusive", Json::arr_str(&a.inconclusive));
         for (k, v) in mon.extra_coverage(cfg.tier, &a.buckets) {
+            cov.put(&k, v);
+        }
+        for (k, v) in post_cov {
             cov.put(&k, v);
         }
         if a.samples.is_empty() {
